@@ -55,10 +55,16 @@ def oracle(case: dict) -> Outcome:
         out.classes.append("structured_" + case["recipe"]["struct"])
     Ls = L - min(float(L.min()), 0.0) + eps
     kappa = float(Ls.max() / Ls.min())
-    peak = float(Ls.min()) ** (-1.0 / r)
-    low = float(Ls.max()) ** (-1.0 / r)
+    try:
+        peak = float(Ls.min()) ** (-1.0 / r)
+        low = float(Ls.max()) ** (-1.0 / r)
+    except OverflowError:
+        peak, low = float("inf"), 0.0
     if not math.isfinite(peak) or peak > 1e-3 * float(torch.finfo(dt).max) or low < 1e3 * float(torch.finfo(dt).tiny):
         out.classes.append("overflow_domain")
+        return out
+    if dt == torch.float64 and (peak > 1e140 or low < 1e-140 or scale > 1e140 or scale < 1e-140):
+        out.classes.append("beyond_oracle_range")  # the float64 oracle squares these quantities (Frobenius norms); nothing asserted
         return out
     out.nontrivial = bool((L <= 16 * n * u * scale).any()) and n >= 2
     ok, X = call_sut(out, "C11.call", "matrix_inverse_root", lambda: mf.matrix_inverse_root(A, rootf, cfg, epsilon=eps))
@@ -66,7 +72,7 @@ def oracle(case: dict) -> Outcome:
         return out
     Xd = X.to(D)
     cl = out.classes
-    cl += [case["dtype"], "stab" if case["stab"] else "plain"]
+    cl += [case["dtype"], "stab" if case["stab"] else "plain"] + (["extreme_scale"] if (scale > 1e15 or scale < 1e-15) else [])
     if float(L.min()) < 0:
         cl.append("negative_eigenvalue")
     if case["recipe"]["kind"] == "zero":
@@ -139,6 +145,9 @@ def _strategy(nmax: int):
     def case(draw: Any) -> dict:
         dtype = draw(st.sampled_from(["f32", "f64"]))
         recipe = draw(matgen.st_recipe(max_logk=4.0 if dtype == "f32" else 9.0, allow_neg=True, allow_zero=True))
+        if draw(st.sampled_from([False] * 7 + [True])):
+            # the property puts no bound on the scale: matrices near the ends of the dtype's exponent range (entries representable, squares / norms not)
+            recipe["scale"] = draw(st.sampled_from([1e20, 1e30, 1e-20, 1e-30, 3e19] if dtype == "f32" else [1e100, 1e-100, 1e60, 1e-60]))
         return {"n": (draw(st.one_of(st.integers(2, min(10, nmax)), st.integers(1, nmax))) if nmax <= 24 else draw(st.one_of(st.integers(25, nmax), st.sampled_from([32, 33, 64])))), "dtype": dtype, "recipe": recipe,
                 "eps_rel": draw(st.one_of(st.floats(-8, 0).map(lambda e: 10.0**e), st.sampled_from([1e-6, 1e-3, 1.0]))),
                 "root": draw(matgen.st_root()), "stab": draw(st.booleans()), "qseed": draw(st.integers(0, 10**6)), "layout": draw(st.sampled_from(["row", "row", "col"]))}
